@@ -1399,6 +1399,10 @@ def check_c09(prog, rep, tier, cfg):
     import strings as _strings
     from engine import AliasReport
     _strings.check_c12(prog, AliasReport(rep, [("C12.e", r".", "C09.h")]), tier, cfg)
+    # C09.i — the only tokens that are emitted with the input's line breaks are the ones of verbatim lines: the AsmInstruction type does
+    # not leak from an empty line onto the tokens collected next (shared with C07.j)
+    import text as _text
+    _text.finished_line_type_does_not_survive(prog, rep, "C09.i")
     # ---------------------------------------------------------------- C09.c config enum mapping
     R = "C09.c"
     cv = [b for k, b in prog.bodies.items() if b.crate == "pasfmt.lib" and "LineEnding" in k and k.endswith("::from")]
